@@ -92,6 +92,17 @@ func ValidateAggregateAndProof(ctx context.Context, signedAgg *phase0.SignedAggr
 		return nil, GossipValidatorResult{REJECT, errors.New("cannot vote for finalized root as target")}
 	}
 
+	// target epoch was already validated to match the slot, which was validated to be within normal range. No overflows.
+	startSlot, _ := spec.EpochStartSlot(att.Data.Target.Epoch)
+
+	// [REJECT] The aggregate attestation's target block is an ancestor of the block named in the LMD vote --
+	// i.e. get_checkpoint_block(store, aggregate.data.beacon_block_root, aggregate.data.target.epoch) == aggregate.data.target.root
+	if cpRoot, ok := checkpointBlock(ch, att.Data.BeaconBlockRoot, startSlot); !ok {
+		return nil, GossipValidatorResult{IGNORE, errors.New("unknown block or ancestor of block, cannot determine its checkpoint block")}
+	} else if cpRoot != att.Data.Target.Root {
+		return nil, GossipValidatorResult{REJECT, fmt.Errorf("target %s is not the checkpoint block %s of the voted block in epoch %d", att.Data.Target.Root, cpRoot, att.Data.Target.Epoch)}
+	}
+
 	// 3 combined steps:
 	// [REJECT] aggregate_and_proof.selection_proof selects the validator as an aggregator for the slot --
 	// i.e. is_aggregator(state, aggregate.data.slot, aggregate.data.index, aggregate_and_proof.selection_proof) returns True.
@@ -99,9 +110,6 @@ func ValidateAggregateAndProof(ctx context.Context, signedAgg *phase0.SignedAggr
 	// i.e. aggregate_and_proof.aggregator_index in get_beacon_committee(state, aggregate.data.slot, aggregate.data.index).
 	// [REJECT] The aggregate_and_proof.selection_proof is a valid signature of the aggregate.data.slot
 	// by the validator with index aggregate_and_proof.aggregator_index.
-
-	// target epoch was already validated to match the slot, which was validated to be within normal range. No overflows.
-	startSlot, _ := spec.EpochStartSlot(att.Data.Target.Epoch)
 
 	towardsCtx, cancel := context.WithTimeout(ctx, catchupTimeout)
 	defer cancel()
